@@ -219,8 +219,12 @@ def sample(
     # Pick which triangles will be sampled.
     cumulative_weights = np.cumsum(weights)
     total_weight = cumulative_weights[-1]
+    # With `side="right"`, triangle `i` is chosen for values in the half-open
+    # interval `[cumulative_weights[i - 1], cumulative_weights[i])`, which is
+    # empty for a triangle with zero weight. (The default `side="left"` chooses
+    # a zero-weight first triangle when the random value is exactly 0.)
     face_indices = np.searchsorted(
-        cumulative_weights, rng.random(num_samples) * total_weight
+        cumulative_weights, rng.random(num_samples) * total_weight, side="right"
     )
 
     v0s = vertices_of_tris[face_indices, 0]
